@@ -183,8 +183,10 @@ def execute(plan):
             recipe_of[o["file"]["name"]] = o["file"]["recipe"]
     datas = {}
     mutated = False
-    with World() as w:
+    with World(bmc=plan.get("dname", "D") if plan.get("bmc") else None) as w:
         w.fresh_per_run = bool(plan.get("fresh"))
+        if plan.get("bmc"):
+            bump("environment:bmc")
         bump("process_model:fresh" if w.fresh_per_run else "process_model:shared")
         dname = plan.get("dname", "D")
         if dname != "D":
